@@ -86,6 +86,7 @@ macro_rules! chk {
 /// the real file, copied verbatim + one include! line (see the crate documentation)
 pub mod uf;
 mod trrel;
+mod eqrel;
 
 pub type Runner = fn(&mut dyn Src, &mut Report);
 
@@ -159,6 +160,9 @@ native {
    uf_history_le4 => |s, r| { h::uf_history::<4>(s, r) },
    uf_history_le5 => |s, r| { h::uf_history::<5>(s, r) },
    uf_history_le6 => |s, r| { h::uf_history::<6>(s, r) },
+   eqrel_protocol_le4 => |s, r| { eqrel::protocol::<4>(s, r) },
+   eqrel_protocol_le5 => |s, r| { eqrel::protocol::<5>(s, r) },
+   eqrel_protocol_le6 => |s, r| { eqrel::protocol::<6>(s, r) },
    trrel_uf_history_le4 => |s, r| { trrel::history::<4>(s, r) },
    trrel_uf_history_le5 => |s, r| { trrel::history::<5>(s, r) },
    trrel_uf_history_le6 => |s, r| { trrel::history::<6>(s, r) },
